@@ -63,15 +63,16 @@ type Conn struct {
 	win      int  // remaining send window; <0 unlimited
 	peerGone bool // actor vanished/closed: writes fail
 
-	closedLocal bool
-	dead        bool // belongs to a crashed server incarnation
-	closeSeen   bool
-	readerWait  int
-	writerWait  int
-	rdDeadline  time.Time
-	wrDeadline  time.Time
-	rdTimer     *time.Timer
-	wrTimer     *time.Timer
+	closedLocal  bool
+	dead         bool // belongs to a crashed server incarnation
+	closeSeen    bool
+	readerWait   int
+	writerWait   int
+	blockedSince time.Time // when the Write call in progress first had to wait for window (zero: none waiting)
+	rdDeadline   time.Time
+	wrDeadline   time.Time
+	rdTimer      *time.Timer
+	wrTimer      *time.Timer
 
 	handler ConnHandler
 
@@ -342,10 +343,25 @@ func (c *Conn) Write(b []byte) (int, error) {
 		if len(b) == 0 {
 			return total, nil
 		}
+		if c.blockedSince.IsZero() {
+			c.blockedSince = time.Now()
+			defer func() { c.blockedSince = time.Time{} }()
+		}
 		c.writerWait++
 		c.cond.Wait()
 		c.writerWait--
 	}
+}
+
+// BlockedForMs tells for how long (simulated ms) the Write call in progress has been waiting for the peer to read
+// (0: no write is waiting).
+func (c *Conn) BlockedForMs() int64 {
+	c.mu.Lock()
+	defer c.mu.Unlock()
+	if c.blockedSince.IsZero() {
+		return 0
+	}
+	return time.Since(c.blockedSince).Milliseconds()
 }
 
 func (c *Conn) Close() error {
